@@ -505,7 +505,11 @@ impl DefaultIndexStore {
         file.write_all(&proto.encode_to_vec())
             .context(temp_file.path())?;
         let path = dir.join(op_id.hex());
+        #[cfg(feature = "verif-hooks")]
+        crate::verif_hooks::crash_point("index.before_op_link");
         persist_temp_file(temp_file, &path).context(&path)?;
+        #[cfg(feature = "verif-hooks")]
+        crate::verif_hooks::crash_point("index.after_op_link");
         Ok(())
     }
 }
